@@ -1,0 +1,47 @@
+//go:build verif
+
+package forwarding
+
+import (
+	"github.com/mutagen-io/mutagen/pkg/state"
+)
+
+// VerifController exposes the controller's forwarding loop (controller.forward)
+// and its counters to the verification harness. It only wraps: no behaviour of
+// the package is changed.
+type VerifController struct {
+	tracker    *state.Tracker
+	controller *controller
+}
+
+// NewVerifController creates a controller that has just enough state for the
+// forwarding loop to run (state lock and state object).
+func NewVerifController() *VerifController {
+	tracker := state.NewTracker()
+	return &VerifController{
+		tracker: tracker,
+		controller: &controller{
+			stateLock: state.NewTrackingLock(tracker),
+			state:     &State{},
+		},
+	}
+}
+
+// Forward runs controller.forward with the specified endpoints.
+func (v *VerifController) Forward(source, destination Endpoint) error {
+	return v.controller.forward(source, destination)
+}
+
+// Counters returns OpenConnections, TotalConnections, TotalInboundData and
+// TotalOutboundData as currently recorded in the controller's state.
+func (v *VerifController) Counters() (open, total, inbound, outbound uint64) {
+	v.controller.stateLock.Lock()
+	defer v.controller.stateLock.UnlockWithoutNotify()
+	s := v.controller.state
+	return s.OpenConnections, s.TotalConnections, s.TotalInboundData, s.TotalOutboundData
+}
+
+// Terminate stops the state tracker created for the controller.
+func (v *VerifController) Terminate() {
+	v.tracker.Terminate()
+}
